@@ -66,8 +66,7 @@ fn run(steps: usize) {
                     m.present[free] = true; m.id[free] = id; m.deadline[free] = dl;
                     m.fut[free] = Some(Abortable::new(pending(), reg));
                     // the timer is armed for exactly the deadline (or immediately, if it has passed)
-                    let key = t.request_data.entry(id);
-                    let armed = match key { crate::verif_env::Entry::Occupied(o) => instant_parts(t_deadline(&t.deadlines, &o.get().deadline_key)), _ => { assert!(false); (0, 0) } };
+                    let armed = instant_parts(t.deadlines.due_of_value(&id));
                     if le(now, dl) { assert!(armed == dl); } else { assert!(armed == now); }
                 }
                 Err(_) => {
